@@ -37,6 +37,11 @@ def handleWith (wp wv : Rat) (args impl : List String) : String :=
                   | [a] => (optTok rat? a)
                   | _ => none
                 let tf := tooFar cb tb
+                -- C02 speaks of the track's *last estimated box*: the box the metric sees for the track must be the box of the
+                -- track's filter state (positions 0..4 of the mean; angle `None` iff the state's angle is 0), bit for bit
+                let means := state.map (·.p)
+                let isEst := tb.xc == means.getD 0 0 && tb.yc == means.getD 1 0 && tb.angle.getD 0 == means.getD 2 0 &&
+                  tb.aspect == means.getD 3 0 && tb.height == means.getD 4 0
                 let ra := radiusSq cb; let rb := radiusSq tb
                 let dd := (cb.xc - tb.xc) * (cb.xc - tb.xc) + (cb.yc - tb.yc) * (cb.yc - tb.yc)
                 let rsum := ra + rb + 2 * ratSqrt (ra * rb)
@@ -61,8 +66,8 @@ def handleWith (wp wv : Rat) (args impl : List String) : String :=
                     | some none, some none => true
                     | some (some a), some (some b) => close a b (1/5000) (1/1000000)
                     | _, _ => false
-                  res (nearBand || nearThr || same) (nearBand || nearThr || oSame)
-                    (flag tf "too-far" ++ flag (m == some none) "below-gate" ++ flag (match m with | some (some _) => true | _ => false) "gated-in" ++
+                  res (nearBand || nearThr || same) ((nearBand || nearThr || oSame) && isEst)
+                    (flag (!isEst) "track-box-is-not-the-filter-estimate" ++ flag tf "too-far" ++ flag (m == some none) "below-gate" ++ flag (match m with | some (some _) => true | _ => false) "gated-in" ++
                      flag (decide (cb.conf < minconf)) "confidence-raised" ++ flag nearThr "guard-band" ++ flag (cb.angle.isSome || tb.angle.isSome) "rotated")
                     s!"model={m.map (fun o => o.map showRat)} impl={implAttr.map (fun o => o.map showRat)}"
                 | none =>
@@ -82,8 +87,8 @@ def handleWith (wp wv : Rat) (args impl : List String) : String :=
                     | none => tf
                     | some (some w) => !tf && (decide (w ≥ 1) == decide (d ≤ g95))
                     | some none => false
-                  res (nearBand || nearGate || same) (nearBand || nearGate || oGate)
-                    (flag tf "too-far" ++ flag (decide (d > gate)) "beyond-chi2-gate" ++ flag (decide (d ≤ gate) && !tf) "gated-in" ++
+                  res (nearBand || nearGate || same) ((nearBand || nearGate || oGate) && isEst)
+                    (flag (!isEst) "track-box-is-not-the-filter-estimate" ++ flag tf "too-far" ++ flag (decide (d > gate)) "beyond-chi2-gate" ++ flag (decide (d ≤ gate) && !tf) "gated-in" ++
                      flag (decide (cb.conf < minconf)) "confidence-raised" ++ flag nearGate "guard-band")
                     s!"d={showRat d} model={m.map (fun o => o.map showRat)} impl={implAttr.map (fun o => o.map showRat)}"
               | _, _ => bad "state"
